@@ -102,3 +102,5 @@ Definition go_is_err {E : Type} (e : option E) : bool :=
 
 (* every element is a byte *)
 Definition go_bytes (b : list Z) : Prop := Forall (fun x => 0 <= x < 256) b.
+(* the length of a Go slice is an int *)
+Definition go_fits (b : list Z) : Prop := go_len b <= 9223372036854775807.
